@@ -33,7 +33,7 @@ MInit ==
   /\ mx = mx0 /\ sq = sq0 /\ ob = ob0
   /\ gh = [gh0 EXCEPT !.qmx[M1] = Q_M, !.qcv[C1] = Q_C1, !.qcv[C2] = Q_C2, !.qbr[B1] = Q_B, !.qjc[J1] = Q_J]
   /\ upc = [t \in Tag |-> [k |-> 0, i |-> 0]]
-  /\ env = [cnt |-> 0, word |-> 0, gate |-> 0, item |-> 0]
+  /\ env = [cnt |-> 0, word |-> 0, gate |-> 0, item |-> 0, held |-> [t \in Tag |-> {}]]
 
 NextTag == CHOOSE t \in Tag : tg[t].hs = "none" /\ \A u \in Tag : tg[u].hs = "none" => t <= u
 CanCreate == \E t \in Tag : tg[t].hs = "none"
@@ -106,10 +106,19 @@ Felock(w, t, tag) ==
        ELSE UBodyEnd(w, tag, 1000 + tag, 0) /\ Same
   ELSE UFeMarkCall(w, tag, 1, 1 - want, M1, IF want = 0 THEN C2 ELSE C1) /\ Adv(tag, 0, 1) /\ UNCHANGED env
 
+\* thread-specific keys: every child makes K calls, each a key creation or the deletion of a key it created
+\* (env.held[tag] = keys the thread currently owns: updated when the call returns, see KeyRet)
+Keys(w, t, tag) ==
+  IF upc[tag].i < K
+  THEN /\ Adv(tag, 1, 1) /\ UNCHANGED env
+       /\ \/ UKeyCreateCall(w, tag, 1)
+          \/ \E k \in env.held[tag] : UKeyDeleteCall(w, tag, k)
+  ELSE UBodyEnd(w, tag, 1000 + tag, 0) /\ Same
+
 Scenario(w, t, tag) ==
   CASE SCN = "mutex" -> Mutex(w, t, tag) [] SCN = "cond" -> Cond(w, t, tag) [] SCN = "gate" -> Gate(w, t, tag)
     [] SCN = "barrier" -> Barrier(w, t, tag) [] SCN = "jc" -> Jc(w, t, tag) [] SCN = "uncond" -> Uncond(w, t, tag)
-    [] SCN = "once" -> Once(w, t, tag) [] SCN = "felock" -> Felock(w, t, tag)
+    [] SCN = "once" -> Once(w, t, tag) [] SCN = "felock" -> Felock(w, t, tag) [] SCN = "keys" -> Keys(w, t, tag)
 
 UserStep(w) ==
   \E t \in D : At(w, t, "user") /\
@@ -121,9 +130,16 @@ UserStep(w) ==
             \/ ~CanCreate /\ (\A c \in Tag : c # 0 => tg[c].hs = "reaped") /\ UMainEnd(w)
     ELSE Scenario(w, t, tag)
 
-LibStep(w) ==
-  /\ Same
-  /\ \/ \E n \in D : QPop(w, w, n) \/ SchedRun(w, n)
+\* returns of key calls update the program's own record of the keys it holds
+KeyRet(w) ==
+  /\ UNCHANGED upc
+  /\ \E t \in Tag :
+       \/ \E k \in 0..(NKeys - 1) : UKeyCreateRet(w, t, 0, k) /\ env' = [env EXCEPT !.held[t] = @ \cup {k}]
+       \/ UKeyCreateRet(w, t, 22, -1) /\ env' = env
+       \/ \E k \in 0..(NKeys - 1), rc \in {0, 22} : UKeyDeleteRet(w, t, k, rc) /\ env' = [env EXCEPT !.held[t] = @ \ {k}]
+
+CoreLib(w) ==
+     \/ \E n \in D : QPop(w, w, n) \/ SchedRun(w, n)
      \/ \E v \in W, n \in D : QTake(w, v, n)
      \/ \E d \in D : QPush(w, w, d) \/ QPut(w, w, d) \/ DescFree(w, w, d)
      \/ \E l \in L : SpinAcq(w, l) \/ SpinRel(w, l)
@@ -142,38 +158,63 @@ LibStep(w) ==
      \/ \E t \in D : Publish(w, t) \/ SetBlocked(w, t)
      \/ \E j, t \in D, b \in {0, 1} : JoinChk(w, j, t, b)
      \/ \E t \in D : JoinReap(w, t, th[t].res)
-     \* ---- primitives
      \/ \E t \in D, q \in Q, m \in {-U1, 0, M1} : Block(w, t, q, m)
      \/ \E q \in Q, d \in D : SqEnq(w, q, d) \/ SqDeq(w, q, d) \/ StPush(w, q, d) \/ StPop(w, q, d)
+
+MutexLib(w) ==
      \/ \E s \in 0..(2 * NT + 3), kind \in {0, 1, 2} : MxLd(w, M1, s, kind)
-     \/ \E e \in 0..(2 * NT + 3), n \in 0..(2 * NT + 5), ok \in {0, 1} : MxCas(w, M1, e, n, ok)
+     \/ \E e \in 0..(2 * NT + 3), d \in {-2, 1, 2, -1}, ok \in {0, 1} : MxCas(w, M1, e, e + d, ok)
      \/ MxWake(w, M1, Q_M) \/ MxClr(w, M1)
      \/ \E t \in Tag : ULockRet(w, t, M1) \/ UUnlockRet(w, t, M1) \/ (\E rc \in {0, 16} : UTryLockRet(w, t, M1, rc))
+CondLib(w) ==
      \/ \E c \in {C1, C2} : CvWait(w, c, c + 1, M1) \/ (\E bc \in {0, 1} : CvSignal(w, c, c + 1, bc))
      \/ \E t \in Tag, c \in {C1, C2} : UCondWaitRet(w, t, c, M1) \/ UCondSignalRet(w, t, c)
+BarrierLib(w) ==
      \/ \E c \in 0..NT : BrLd(w, B1, c, NT) \/ (\E ok \in {0, 1} : BrCas(w, B1, c, ok)) \/ BrWake(w, B1, Q_B, c)
      \/ BrReset(w, B1)
      \/ \E t \in Tag, rc \in {0, 1} : UBarrierRet(w, t, B1, rc, NT)
+JcLib(w) ==
      \/ \E s \in 0..(4 * (NT + 1)), kind \in {0, 1} : JcLd(w, J1, s, kind, ND, CalcBits(ND))
-     \/ \E e, n \in 0..(4 * (NT + 2)), ok \in {0, 1} : JcCas(w, J1, e, n, ok)
+     \/ \E e \in 0..(4 * (NT + 2)), d \in {1, Pow2(CalcBits(ND))}, ok \in {0, 1} : JcCas(w, J1, e, e + d, ok)
      \/ \E k \in 0..NT : JcWake(w, J1, Q_J, k)
      \/ \E t \in Tag : UJcWaitRet(w, t, J1, ND) \/ UJcDecRet(w, t, J1)
+UncondLib(w) ==
      \/ \E d \in D : UcPub(w, U1, d) \/ UcLd(w, U1, d)
      \/ UcClr(w, U1)
      \/ \E t \in Tag : UUcWaitRet(w, t, U1) \/ UUcSignalRet(w, t, U1)
+OnceLib(w) ==
      \/ \E s \in 0..2 : OnLd(w, O1, s)
      \/ \E ok \in {0, 1} : OnCas(w, O1, ok)
      \/ UOnceBody(w, O1) \/ OnDone(w, O1)
      \/ \E t \in Tag : UOnceRet(w, t, O1)
+FelockLib(w) ==
      \/ \E st, want \in {0, 1} : FeChk(w, 1, st, want) \/ FeMark(w, 1, st)
      \/ \E t \in Tag, st \in {0, 1} : UFeWaitLockRet(w, t, 1, st) \/ UFeMarkRet(w, t, 1, st)
+KeysLib(w) ==
+     \/ KaLock(w) \/ KaUnlock(w)
+     \/ \E h \in -1..(NKeys - 1) : KaLd(w, h)
+     \/ \E h \in 0..(NKeys - 1), nx \in -2..(NKeys - 1), ok \in {0, 1} : KaNext(w, h, nx) \/ KaCas(w, h, nx, ok)
+     \/ \E k \in 0..(NKeys - 1), h \in -1..(NKeys - 1), ok \in {0, 1} : KdLd(w, k, h) \/ KdCas(w, k, h, ok)
+
+\* only the actions of the primitives the scenario uses are offered (the others are never enabled anyway)
+LibStep(w) ==
+  /\ Same
+  /\ \/ CoreLib(w)
+     \/ SCN \in {"mutex", "cond", "gate", "felock"} /\ MutexLib(w)
+     \/ SCN \in {"cond", "gate", "felock"} /\ CondLib(w)
+     \/ SCN = "barrier" /\ BarrierLib(w)
+     \/ SCN = "jc" /\ JcLib(w)
+     \/ SCN = "uncond" /\ UncondLib(w)
+     \/ SCN = "once" /\ OnceLib(w)
+     \/ SCN = "felock" /\ FelockLib(w)
+     \/ SCN = "keys" /\ KeysLib(w)
 
 Finished == \E w \in W : cur[w] # 0 /\ th[cur[w]].tag = 0 /\ th[cur[w]].pc.k = "done"
 AllReaped == \A t \in Tag : t # 0 /\ tg[t].hs # "none" => tg[t].reaped = 1
 Terminated == Finished /\ AllReaped /\ UNCHANGED mvars
-MNext == (\E w \in W : UserStep(w) \/ LibStep(w)) \/ Terminated
+MNext == (\E w \in W : UserStep(w) \/ LibStep(w) \/ KeyRet(w)) \/ Terminated
 MSpec == MInit /\ [][MNext]_mvars
-MFairSpec == MSpec /\ \A w \in W : WF_mvars(UserStep(w) \/ LibStep(w))
+MFairSpec == MSpec /\ \A w \in W : WF_mvars(UserStep(w) \/ LibStep(w) \/ KeyRet(w))
 Termination == <>Finished
 
 \* ---- structural invariants of the primitives
